@@ -63,12 +63,24 @@ macro_rules! dispatch_request {
         match $request.method.as_str() {
             $(
                 <$req_type>::METHOD => {
+                    let req_id = $request.id.clone();
                     if let Ok((id, params)) = $request.extract::<<$req_type as LspRequest>::Params>(<$req_type>::METHOD) {
                         let snapshot = $context.snapshot();
                         $context.task(id.clone(), |cancel_token| async move {
                             let result = $handler(snapshot, params, cancel_token).await;
                             Some(Response::new_ok(id, result))
                         }).await;
+                        return Ok(());
+                    } else {
+                        // the params are malformed or missing (ExtractError::JsonError; the method was matched above,
+                        // so MethodMismatch cannot occur): the request still gets its one response
+                        error!("invalid params for request: {}", <$req_type>::METHOD);
+                        let response = Response::new_err(
+                            req_id,
+                            lsp_server::ErrorCode::InvalidParams as i32,
+                            "invalid params".to_string(),
+                        );
+                        $context.send(response);
                         return Ok(());
                     }
                 }
